@@ -33,7 +33,7 @@ ASSUMPTIONS = ['"offered" = token present in Accept-Encoding with q absent or '
                'ECMA-262 (raw LF/CR illegal; U+2028/2029 legal since ES2019 '
                'and counted separately)']
 REQUIRED = ['decoded_responses', 'jsonp_evaluated', 'encoding_declared',
-            'threshold_edges', 'sequence_responses']
+            'threshold_edges', 'sequence_responses', 'acknowledgements']
 SHARD_TIMEOUT = {'quick': 300, 'thorough': 3000}
 
 AE = [None, 'gzip', 'deflate', 'gzip, deflate', 'deflate, gzip',
@@ -90,8 +90,9 @@ def gen_messages(rng):
     return msgs, classes
 
 
-def decode_response(t, j, rec, V):
-    """-> (packets, uncompressed_len, declared) or None after a violation."""
+def decode_response(t, j, rec, V, ack=False):
+    """-> (packets, uncompressed_len, declared) or None after a violation.
+    ack=True: the response is a packet-less acknowledgement ("OK")."""
     body = t.body or b''
     ce = t.header_all('Content-Encoding')
     declared = None
@@ -118,6 +119,12 @@ def decode_response(t, j, rec, V):
         V('undeclared-body-not-text', 'body without Content-Encoding is not '
           'UTF-8 text (compressed but undeclared?): %r' % body[:40])
         return None
+    if ack:
+        if text != 'OK':
+            V('acknowledgement-body', 'after undoing the declared encoding '
+              'the acknowledgement body is %r, not OK' % text[:60])
+            return None
+        return [], len(body), declared
     if j is not None:
         rec.count('jsonp_evaluated')
         try:
@@ -243,7 +250,7 @@ def run_sequence(rec, case):
     rng = gen.mkrng('c19seq', case['seed'], case['i'])
     srv = rng.choice(['T', 'A'])
     comp = rng.random() < 0.85
-    thr = rng.choice([0, 60, 200, 1024])
+    thr = rng.choice([0, 0, 2, 60, 200, 1024])
     cookie = rng.choice([None, None, 'io'])
     rec.evaluations += 1
     steps = []
@@ -266,8 +273,19 @@ def run_sequence(rec, case):
             j = rng.choice([None, None, '0', '7'])
             hd = {} if ae is None else {'Accept-Encoding': ae}
             q = {'j': j} if j is not None else None
-            kind = rng.choice(['poll', 'poll', 'poll', 'open'])
-            if kind == 'open':
+            kind = rng.choice(['poll', 'poll', 'poll', 'open', 'post',
+                               'options'])
+            if kind in ('post', 'options'):
+                # packet-less acknowledgements are responses too
+                h = rng.choice(hs)
+                qq = {'transport': 'polling', 'EIO': '4', 'sid': h.sid}
+                qq.update(q or {})
+                t = sim.request('POST' if kind == 'post' else 'OPTIONS', qq,
+                                hd, body=b'4up' if kind == 'post' else None)
+                sim.quiesce()
+                msgs, size = None, 'ack'
+                rec.count('acknowledgements')
+            elif kind == 'open':
                 h = sim.open_polling(q, headers=hd)
                 t, msgs = h.open_ticket, None
                 size = 'open'
@@ -288,12 +306,14 @@ def run_sequence(rec, case):
                 return
             rec.count('decoded_responses')
             rec.count('sequence_responses')
-            res = decode_response(t, j, rec, V)
+            res = decode_response(t, j, rec, V, ack=(size == 'ack'))
             if res is None:
                 return
             pk, ulen, declared = res
             steps[-1] = steps[-1] + (declared,)
-            if kind == 'open':
+            if size == 'ack':
+                pass
+            elif kind == 'open':
                 if not pk or pk[0][0] != 0 or not isinstance(pk[0][1], dict):
                     V('open-lost', 'open response decodes to %r' % (pk[:2],))
             else:
